@@ -468,6 +468,7 @@ func runClose(c c13Case) *vh.Failure {
 	readerParked := c.Sent-c.Consumed > c.Cap
 	var wg sync.WaitGroup
 	var blockedErr error
+	var blockedPkg tds.Package
 	blockedReturned := make(chan struct{})
 	if c.Blocked && c.Sent <= c.Consumed {
 		wg.Add(1)
@@ -475,7 +476,7 @@ func runClose(c c13Case) *vh.Failure {
 			defer wg.Done()
 			defer close(blockedReturned)
 			defer func() { recover() }()
-			_, blockedErr = ch.NextPackage(e.bg, true)
+			blockedPkg, blockedErr = ch.NextPackage(e.bg, true)
 		}()
 		time.Sleep(200 * time.Microsecond)
 	} else {
@@ -531,8 +532,17 @@ func runClose(c c13Case) *vh.Failure {
 	}
 	select {
 	case <-blockedReturned:
-		if c.Blocked && c.Sent <= c.Consumed && blockedErr == nil {
-			// the blocked consumer may legitimately have received the logout answer; nothing to check
+		if c.Blocked && c.Sent <= c.Consumed {
+			// the woken consumer either got a package (it may legitimately have received a late
+			// one) or is told why there is none: the closed condition (or a context / connection
+			// error) - never "nothing ready yet", which only a non-waiting call may answer,
+			// and never nothing at all
+			switch {
+			case blockedErr == nil && blockedPkg == nil:
+				return vh.Failf("C13/woken-consumer-gets-nothing", "%v: NextPackage(wait=true) woken by Close returned (nil, nil)", c)
+			case errors.Is(blockedErr, tds.ErrNoPackageReady):
+				return vh.Failf("C13/woken-consumer-not-told-closed", "%v: NextPackage(wait=true) woken by Close returned %v", c, blockedErr)
+			}
 		}
 	case <-time.After(2 * time.Second):
 		return vh.Failf("C13/consumer-still-blocked-after-close", "%v: a consumer blocked in NextPackage is still blocked 2 s after Close returned", c)
